@@ -30,7 +30,7 @@ META = {
                     "'address-family' blocks end with their 'exit-address-family' row (as on devices); RouterOS: section words "
                     "then leaf rows; Nokia: no top-level row 'configure'",
                     "row alphabets contain the awkward-but-legal cases (rows starting with if/else/xpl/route-policy/address-family/"
-                    "end-…/quit/exit, rows with several words, negated rows)"],
+                    "end-…/quit/exit, rows with several words, negated rows, a Juniper-like row whose later words start with '##'); RouterOS neighbouring sections may hold equal content"],
     "outside": ["Juniper comments/annotations", "RouterOS file / ssh-key splitters", "texts not produced by join",
                 "rows with leading/trailing or doubled blanks"],
     "bounds": {},
